@@ -373,7 +373,7 @@ def judge(ctx, leg, c, marks, o):
         ctx.gen_miss += 1
         return
     exp = [[m["m"], m["src"]] for m in marks]
-    if len(o["obs"]) == len(exp) and all(a == b or m["what"] == "quote-directive" for a, b, m in zip(o["obs"], exp, marks)):
+    if len(o["obs"]) == len(exp) and all(a == b for a, b, m in zip(o["obs"], exp, marks)):
         return
     # as-built deviations: decided by the model with the matching Dev switches (batch, below)
     c.setdefault("_mismatch", True)
